@@ -301,6 +301,12 @@ class C20(Check):
                 for i in range(4):
                     for j in range(i + 1, 4):
                         self.expect_before(f"{pre}{rom[i]}{suf}", f"{pre}{rom[j]}{suf}", "roman", ctx)
+        # numerals directly followed by a digit run: by numeral value first, then by the number
+        if not pre.endswith("I") and not (pre and pre[-1].isdigit()):
+            chain = [f"{pre}I2", f"{pre}I10", f"{pre}II1", f"{pre}II12", f"{pre}III", f"{pre}III0", f"{pre}IV3"]
+            for i in range(len(chain)):
+                for j in range(i + 1, len(chain)):
+                    self.expect_before(chain[i], chain[j], "roman-then-number", ctx)
         # (c) unloc directly after its chromosome, before the next one
         for letter in ("", "A", "B"):
             for n in range(1, min(nmax, 30) + 1):
